@@ -1,0 +1,5 @@
+//go:build !verif
+
+package linux
+
+func verifPutScp(src, dst string) {}
